@@ -80,6 +80,24 @@ pub fn transitive_family() -> Vec<Prog> {
   for u in &uses { for m in &mids { for g in &gens {
     out.push(Prog { n_res: 2, bodies: vec![u.clone(), m.clone(), g.clone()] });
   } } }
+  // generators whose LAST recorded dependency is not their write (a read of a third resource or a require after the
+  // write): the write edge sits in the middle of the generator's outgoing edges
+  for u in [vec![st(Req(1, a)), st(Read(0, e))], vec![st(Req(1, q)), st(Read(0, e))]] {
+    for g in [
+      vec![st(Read(1, e)), st(Write(0, Src::Acc, e)), st(Read(2, e))],
+      vec![st(Read(1, e)), st(WriteDecl(0, Src::Acc, e)), st(Read(2, RC::Exists))],
+      vec![st(Read(2, e)), st(Read(1, e)), st(Write(0, Src::Acc, e)), st(Read(2, e))],
+    ] {
+      out.push(Prog { n_res: 3, bodies: vec![u.clone(), g] });
+    }
+    for g in [
+      vec![st(Read(1, e)), st(Write(0, Src::Acc, e)), st(Req(2, a))],
+      vec![st(Req(2, a)), st(Read(1, e)), st(Write(0, Src::Acc, e)), st(Req(2, a))],
+    ] {
+      out.push(Prog { n_res: 2, bodies: vec![u.clone(), g.clone(), vec![]] });
+      out.push(Prog { n_res: 2, bodies: vec![u.clone(), g, vec![st(Read(1, e))]] });
+    }
+  }
   out
 }
 
